@@ -21,6 +21,28 @@ CHECKS = {
         design="DESIGN.md section 4 C01"),
 }
 
+CHECKS["C11"] = dict(
+    text=("Proof, for every axis size d >= 0 and every int64 start/stop/step (omitted or given, constant or run-time), that the "
+          "Slice/Squeeze/Gather nodes emitted by the real Converter._translate_subscript_expr (incl. translate_slice, "
+          "translate_slice_component, const_1d, _emit_const) select exactly NumPy's index sequence or fail: the real code is "
+          "symbolically executed on a symbolic Subscript AST, the emitted operands are decoded from a ghost emission log and "
+          "compared with CPython's slice-adjustment rules and the ONNX Slice-13 clamping rules in linear integer arithmetic. "
+          "Two known findings are carved out by exact region predicates and re-proved outside them on every run."),
+    note=("Assumed: ONNX Slice/Gather/Squeeze documentation is what runtimes implement; _emit contract; index tuples of length <= 2 "
+          "(3 for the squeeze/gather interplay) in the driver, values unbounded; eager Tensor.__getitem__ is NOT under contract "
+          "(numpy-backed; same arithmetic, covered only by the native replays); pyvc and z3 trusted."),
+    design="DESIGN.md section 4 C11")
+CHECKS["C12"] = dict(
+    text=("Proof of K(C12): autocast._get_dtype/_promotable (bool before int, INT64/FLOAT/BOOL), Converter._emit_const (one Constant per "
+          "literal occurrence, fresh name, castable) and GraphBuilder._get_or_create_constant (a cache hit returns a tensor bit-equal "
+          "to what a miss would create; Python ==/hash on bool/int/float keys modelled with IEEE-754 doubles in z3, so 0.0/-0.0 and "
+          "True/1/1.0 coincidences are decided for all values). cast_inputs and BuilderBase._cast_inputs are checked against one "
+          "`promote` specification with symbolic type-variable names / variadic flags for signatures up to 3 formals and 4 arguments "
+          "(reported as bounded stand-ins, not counted as discharged)."),
+    note=("Assumed: schema convention that a type string without '(' is a type variable; ir.tensor/np.array conversion (onnx_ir, numpy); "
+          "well-typedness (operands sharing a type variable share a type) for first-vs-last binding; pyvc and z3 trusted."),
+    design="DESIGN.md section 4 C12")
+
 NOT_APPLICABLE = {
     "C08": "oracle is PyTorch eager for ~550 ATen ops; no contract within reach can state it (DESIGN.md section 5)",
     "C19": "fused operators are ONNX Runtime contrib kernels defined only by ORT C++; no deductive oracle (DESIGN.md section 5)",
